@@ -504,9 +504,13 @@ impl Server {
                         .to_delete_file_op()])
                     .chain(vec![
                         new_key.to_full_url(&self.base_path).to_create_file_op(),
+                        // the patch knows the note's front matter under the old name only
                         new_key.to_full_url(&self.base_path).to_override_new_file_op(
                             &self.base_path,
-                            patch.export_key(&new_key).expect("to have key"),
+                            self.database.graph().with_front_matter(
+                                &key,
+                                patch.export_key(&new_key).expect("to have key"),
+                            ),
                         ),
                     ])
                     .collect();
